@@ -141,6 +141,19 @@ fn count_osstr_chars_for_exec(s: &OsStr) -> usize {
     s.encode_wide().count() + 1
 }
 
+/// An argument exactly as it was read: on Unix every byte reaches the command
+/// unchanged, also when the input is not valid UTF-8.
+#[cfg(unix)]
+fn os_string_from_bytes(bytes: Vec<u8>) -> OsString {
+    use std::os::unix::ffi::OsStringExt;
+    OsString::from_vec(bytes)
+}
+
+#[cfg(not(unix))]
+fn os_string_from_bytes(bytes: Vec<u8>) -> OsString {
+    String::from_utf8_lossy(&bytes).into_owned().into()
+}
+
 #[cfg(unix)]
 fn count_osstr_chars_for_exec(s: &OsStr) -> usize {
     use std::os::unix::ffi::OsStrExt;
@@ -645,7 +658,7 @@ where
         }
 
         Ok(Some(Argument {
-            arg: String::from_utf8_lossy(&result[..]).into_owned().into(),
+            arg: os_string_from_bytes(result),
             kind: if terminated_by_newline {
                 ArgumentKind::HardTerminated
             } else {
@@ -694,7 +707,7 @@ where
                     &buf[..]
                 };
                 break Some(Argument {
-                    arg: String::from_utf8_lossy(bytes).into_owned().into(),
+                    arg: os_string_from_bytes(bytes.to_vec()),
                     kind: ArgumentKind::HardTerminated,
                 });
             }
